@@ -63,7 +63,7 @@ type stepSpec struct {
 
 // one event of a history; everything needed to replay it is in here
 type event struct {
-	K   string `json:"k"` // region create add addw promote hb push remove deliver drop foreign age slow
+	K   string `json:"k"` // region create add addw promote hb push remove deliver drop foreign age slow poke
 	Rid uint64 `json:"rid,omitempty"`
 	ID  int    `json:"id,omitempty"`
 	IDs []int  `json:"ids,omitempty"`
@@ -83,6 +83,8 @@ type event struct {
 	F      string `json:"f,omitempty"` // add-learner remove promote demote transfer split leave shadow
 	FStore uint64 `json:"fstore,omitempty"`
 	FID    uint64 `json:"fid,omitempty"`
+	// poke: an exported status method of the *Operator is called directly
+	P string `json:"p,omitempty"` // start cancel replace check-expired check-timeout check-success check
 }
 
 type caseIn struct {
@@ -427,6 +429,30 @@ func (w *world) exec(e event) (string, obs) {
 			d = "DRejected"
 		}
 		return fmt.Sprintf("EForeign %s (%s)", coqfmt.ZU(e.Rid), tikvsim.CoqCmdBody(m)), obs{Res: -1, Region: sim.Region(), RegVer: w.version(e.Rid), Deliver: d}
+	case "poke":
+		op := w.ops[e.ID-1]
+		res := int64(-1)
+		switch e.P {
+		case "start":
+			res = b2i(op.Start())
+		case "cancel":
+			res = b2i(op.Cancel())
+		case "replace":
+			res = b2i(op.Replace())
+		case "check-expired":
+			res = b2i(op.CheckExpired())
+		case "check-timeout":
+			res = b2i(op.CheckTimeout())
+		case "check-success":
+			res = b2i(op.CheckSuccess())
+		case "check":
+			if r := w.tc.GetRegion(op.RegionID()); r != nil {
+				res = b2i(op.Check(r) != nil)
+			}
+		default:
+			panic("bad poke " + e.P)
+		}
+		return fmt.Sprintf("EPoke %s %s", coqfmt.Z(int64(e.ID)), pokeCoq[e.P]), obs{Res: res}
 	case "age":
 		operator.SetOperatorStatusReachTime(w.ops[e.ID-1], operator.CREATED, time.Now().Add(-time.Hour))
 		return "EAge " + coqfmt.Z(int64(e.ID)), obs{Res: -1}
@@ -435,6 +461,14 @@ func (w *world) exec(e event) (string, obs) {
 		return "ESlow " + coqfmt.Z(int64(e.ID)), obs{Res: -1}
 	}
 	panic("bad event " + e.K)
+}
+
+var pokeCoq = map[string]string{"start": "PStart", "cancel": "PCancel", "replace": "PReplace", "check-expired": "PCheckExpired",
+	"check-timeout": "PCheckTimeout", "check-success": "PCheckSuccess", "check": "PCheck"}
+var pokeKinds = []string{"start", "cancel", "replace", "check-expired", "check-timeout", "check-success", "check"}
+
+func genPoke(r *rng.R, id int) event {
+	return event{K: "poke", ID: id, P: pokeKinds[r.Pick(18, 14, 12, 12, 12, 12, 20)]}
 }
 
 func b2i(b bool) int64 {
@@ -699,6 +733,9 @@ func runCase(rec *tikvsim.Recorder, c *caseIn, r *rng.R, mode string, maxEvents 
 		if e.K == "foreign" {
 			out.stats["foreign:"+e.F+":"+o.Deliver]++
 		}
+		if e.K == "poke" {
+			out.stats[fmt.Sprintf("poke:%s:%d", e.P, o.Res)]++
+		}
 		if o.Deliver != "" && e.K == "deliver" {
 			out.stats["deliver:"+o.Deliver]++
 			if o.Deliver == "DAccepted" {
@@ -842,12 +879,52 @@ func runCase(rec *tikvsim.Recorder, c *caseIn, r *rng.R, mode string, maxEvents 
 						break
 					}
 				}
+				if r.Pct(15) { // the holder of the operator keeps calling its methods after it ended
+					for k := 1 + r.Intn(3); k > 0; k-- {
+						do(genPoke(r, id))
+					}
+				}
+			}
+		} else if mode == "walk" {
+			// walks over the status matrix of real Operators: direct method calls interleaved with controller calls
+			rid := w.rids[0]
+			for k := 1 + r.Intn(2); k > 0; k-- {
+				create(rid)
+			}
+			n := 6 + r.Intn(10)
+			for len(evs) < n+3 {
+				id := anyOp()
+				if id == 0 {
+					break
+				}
+				switch r.Pick(55, 12, 10, 6, 6, 5, 6) {
+				case 0:
+					do(genPoke(r, id))
+				case 1:
+					do(event{K: "add", IDs: []int{id}})
+				case 2:
+					do(event{K: "hb", Rid: rid})
+				case 3:
+					do(event{K: "age", ID: id})
+				case 4:
+					do(event{K: "slow", ID: id})
+				case 5:
+					do(event{K: "remove", ID: id})
+				case 6:
+					for len(w.inbox) > 0 {
+						do(event{K: "deliver", Rid: rid})
+					}
+				}
 			}
 		} else {
 			n := 8 + r.Intn(maxEvents-8)
 			for len(evs) < n {
 				rid := pickRid()
-				switch r.Pick(16, 14, 6, 2, 18, 14, 3, 5, 4, 8, 3, 3) {
+				switch r.Pick(16, 14, 6, 2, 18, 14, 3, 5, 4, 8, 3, 3, 5) {
+				case 12:
+					if id := anyOp(); id != 0 {
+						do(genPoke(r, id))
+					}
 				case 0:
 					create(rid)
 				case 1:
@@ -930,7 +1007,9 @@ func main() {
 	R := res.New("C09", *seed, *tier)
 	R.Rule = "histories of a real OperatorController on mockcluster (6 stores, 1-3 regions): operators from the real Builder (joint / non-joint, " +
 		"peer ids distinct from store ids in 85 % of the cases) or from explicit steps of every kind, AddOperator / AddWaitingOperator / Promote / " +
-		"Dispatch(heartbeat) / Dispatch(push) / RemoveOperator, commands executed (or dropped) by tikvsim, foreign changes, expiry and timeout by " +
+		"Dispatch(heartbeat) / Dispatch(push) / RemoveOperator, commands executed (or dropped) by tikvsim, foreign changes (incl. the shadow scenario: " +
+		"the operator's command is lost, somebody else changes the region and then issues that very command), direct calls of the Operator's " +
+		"exported status methods (walks over the status matrix), expiry and timeout by " +
 		"back-dated reach times; non-trivial = some operator started, some command was applied and some operator ended; distinct by sha256 of the case text"
 	cf := &coqfmt.CaseFile{Dir: *out, Prefix: "C09", PerFile: 100,
 		Header: "From Coq Require Import String.\nFrom PDV Require Import lib.Base model.C08_Steps model.C09_OpCtl.\nLocal Open Scope string_scope.\nLocal Open Scope list_scope.\nLocal Open Scope Z_scope.\n",
@@ -1023,7 +1102,9 @@ func main() {
 				c.MaxWaiting = 1 + r.Intn(2)
 			}
 			mode := "lifecycle"
-			switch r.Pick(45, 40, 15) {
+			switch r.Pick(40, 36, 14, 10) {
+			case 3:
+				mode = "walk"
 			case 1:
 				mode = "chaos"
 			case 2:
